@@ -259,8 +259,11 @@ def gen_stream(r):
            "all_gen": f"all(({cmp_src}) for i in (1, 2))",
            "guard_and": f"r.x and ({cmp_src})", "or_guard": f"({cmp_src}) or r.x",
            "not_and_guard": f"not ({cmp_src}) and r.x"}[ctx]
-    return {"kind": "stream", "engine": engine, "op": op, "pos": pos, "src": src, "cmp": cmp_src, "ctx": ctx,
+    case = {"kind": "stream", "engine": engine, "op": op, "pos": pos, "src": src, "cmp": cmp_src, "ctx": ctx,
             "lacks_name": lacks_name, "via": via, "sources": sources}
+    if via != "reader" and ft != "bytes" and r.chance(30):
+        case["fmt"] = "jsonl"         # the sources are JSON-lines files (same mixes of types, same-name evolution included)
+    return case
 
 
 HELPER_PRESENT = ["s", "t", "u"]
@@ -370,9 +373,15 @@ def run_real(case):
         return out
     # ---- stream
     blobs, expected, undecided = [], [], []
+    jdir = tempfile.mkdtemp(prefix="frv-c08j-") if case.get("fmt") == "jsonl" else None
     for recs in case["sources"]:
         buf = io.BytesIO()
-        w = RecordStreamWriter(buf)
+        if jdir:
+            from flow.record import RecordWriter
+            jp = os.path.join(jdir, "src.jsonl")
+            w = RecordWriter("jsonfile://" + jp)
+        else:
+            w = RecordStreamWriter(buf)
         for name, fields in recs:
             rec = build_record(name, fields)
             keep = reference_keep(case.get("cmp", case["src"]), rec, case.get("ctx", "bare"), case.get("lacks_name"))
@@ -385,7 +394,13 @@ def run_real(case):
                 expected.append(int(rec.idx))
             w.write(rec)
         w.flush()
-        blobs.append(buf.getvalue())
+        if jdir:
+            w.close()
+            blobs.append(open(jp, "rb").read())
+        else:
+            blobs.append(buf.getvalue())
+    if jdir:
+        shutil.rmtree(jdir, ignore_errors=True)
     sel = _selector(case["engine"], case["src"])
     got, err = [], None
     if case["via"] == "reader":
@@ -399,7 +414,7 @@ def run_real(case):
         try:
             paths = []
             for i, b in enumerate(blobs):
-                p = os.path.join(d, "s%d.records" % i)
+                p = os.path.join(d, ("s%d.jsonl" if case.get("fmt") == "jsonl" else "s%d.records") % i)
                 with open(p, "wb") as f:
                     f.write(b)
                 paths.append(p)
